@@ -1389,7 +1389,7 @@ func (r *Run) c14Getput(acct *c14Acct, reps int, put bool, topo, fault, leakMsg 
 // ---------------------------------------------------------------------------------------------
 
 func runC14(r *Run) {
-	r.Result.Rule = "query fault placements enumerated (NumTries 0..4 x resend delay {0, small} x {silent, pre-cancelled, closed server, late reply, and per send k: reply/cancel/Close during, at and after the write, write failure, duplicate reply, reply racing a failed write, cancel racing a reply, Close racing a reply, faults on consecutive sends}) plus PRNG-drawn multi-fault schedules; each placement repeated (20x) on fresh servers with goroutine accounting; every distinct observed history validated by the Lean query machine with model-independent negative controls; traversal owners (Bootstrap, Announce, getput.Get/Put) x {resolver error, no nodes, silent node, answering nodes, several simultaneous holders of the item; replies that list one address under two IDs} x {run, ctx cancel, Server.Close, Announce.Close/StopTraversing at three points, Close/StopTraversing during a slow node-filter look-up under the traversal lock} x {consumer reads, does not read}; non-trivial = distinct (scenario, observed history, outcome)"
+	r.Result.Rule = "query fault placements enumerated (NumTries 0..4 x resend delay {0, small} x {silent, pre-cancelled, closed server, late reply, and per send k: reply/cancel/Close during, at and after the write, write failure, duplicate reply, reply racing a failed write, cancel racing a reply, Close racing a reply, faults on consecutive sends}) plus PRNG-drawn multi-fault schedules; a long-uptime history (65535 refused queries, thorough 3x65536, between two queries to one address, the older still outstanding); each placement repeated (20x) on fresh servers with goroutine accounting; every distinct observed history validated by the Lean query machine with model-independent negative controls; traversal owners (Bootstrap, Announce, getput.Get/Put) x {resolver error, no nodes, silent node, answering nodes, several simultaneous holders of the item; replies that list one address under two IDs} x {run, ctx cancel, Server.Close, Announce.Close/StopTraversing at three points, Close/StopTraversing during a slow node-filter look-up under the traversal lock} x {consumer reads, does not read}; non-trivial = distinct (scenario, observed history, outcome)"
 	t0 := time.Now()
 	acct := &c14Acct{stable: time.Duration(r.n(500, 1500)) * time.Millisecond}
 	if extra, dump := acct.settle(); extra > 0 {
